@@ -14,7 +14,7 @@ from vlib.hs import Leaf, P, kf, ok, pick, same_json, small, why
 ENV = JSONPathEnvironment()
 OPS = ["==", "!=", "<", "<=", ">", ">="]
 FLOATS = [0.0, 1.0, 1.5, -1.0, 2.0**53]
-STRS = ["", "a", "b", "ab", "B", "1", "é"]
+STRS = ["", "a", "b", "ab", "B", "1", "é", "ab\n", "\n", "(", "a."]
 INTS = [-1, 0, 1, 2, 2**53, 2**53 + 1]
 KEYSETS = [("a", "b"), ("b", "a"), ("a", "c"), ("", "1")]
 BI = Union[bool, int]
@@ -219,4 +219,5 @@ def filt_pstr(i: int, j: int, pa: bool, pb: bool) -> bool:
         first["a"] = val(i)
     if pb:
         first["b"] = val(j)
-    return ok(_check([first, {"a": "ab", "b": "a."}, "a"]))
+    # a candidate with a valid pattern first, then the symbolic candidate twice in a row (call-history effects)
+    return ok(_check([{"a": "ab", "b": "a."}, first, dict(first), "a"]))
